@@ -25,6 +25,7 @@ REGISTRY = {
     "C06": ("auverif.props.c06", "run"),
     "C07": ("auverif.props.c07", "run"),
     "C10": ("auverif.props.c10", "run"),
+    "C09": ("auverif.props.c09", "run"),
 }
 
 
